@@ -74,6 +74,20 @@ T = {
  "C32-m1": ("C32", "", "", ""),
  "C32-m2": ("C32", "", "", ""),
  "C33-m1": ("C33", "concrete_type may pick an implementing interface for an interface position", "interface implementing another interface + a choose_index answer landing on it", ""),
+
+ # ---- round 2 (sub-agents were also told what round 1 had produced for the property) ----
+ "C12-r2m1": ("C12", "SchemaDefinition::extensions(): the three root-operation lists merged into one list in kind order and passed before the directive list", "two `extend schema` blocks each adding a directive and a root operation, the earlier block carrying the later kind (subscription before mutation)", ""),
+ "C12-r2m2": ("C12", "Schema::to_ast skips built-in types that have no directives", "an extension of a built-in non-scalar type (`extend type __Type { extra: Int }`) with no directive on that type", ""),
+ "C13-r2m1": ("C13", "SchemaDefinition::from_ast applies queued schema extensions before the definition's own root operations", "`extend schema { query: B }` before `schema { query: A }` naming the same root operation", ""),
+ "C13-r2m2": ("C13", "type_extension!: an extension equal to one already queued is not queued again", "two textually identical extensions of a type, both before its definition", ""),
+ "C16-r2m1": ("C16", "validate_schema inserts missing built-in scalars first and returns early when it inserted any (no pruning in that pass)", "one edit drops the last reference to a defined built-in scalar and adds a reference to a pruned one; the leftover disappears only at the next validation", ""),
+ "C16-r2m2": ("C16", "BuiltInScalars table holds plain ScalarType values; a restored scalar is a new location-less node (is_built_in() false)", "prune; into_inner; reference the scalar again; validate; then look at what was restored (wrong literal accepted, scalar no longer pruned)", ""),
+ "C21-r2m1": ("C21", "input-object cycle check lost the branch that skips a name already on the path", "an input object not on a non-null cycle that reaches one through required fields", ""),
+ "C21-r2m2": ("C21", "get_line_column indexes bytes[index + 1] without bounds check", "source text ending in a lone CR plus a diagnostic located at EOF, rendered as JSON", ""),
+ "C24-r2m1": ("C24", "possibleTypes of an interface without implementers is null instead of []", "an interface nothing implements", ""),
+ "C24-r2m2": ("C24", "__Directive.args ignores includeDeprecated and always drops deprecated arguments", "a directive definition with an argument marked @deprecated", ""),
+ "C26-r2m1": ("C26", "Int result coercion uses a half-open range that excludes i32::MAX", "a resolver returning exactly 2147483647", ""),
+ "C26-r2m2": ("C26", "collect_fields returns (instead of continuing) at an already visited fragment spread", "the same fragment reached twice in one selection set with more selections after the second spread", ""),
  "C33-m2": ("C33", "collect_fields: a fragment spread's fields replace nothing but are not merged into an already collected key", "same composite response key twice, the later occurrence from a named fragment with an extra sub-field", ""),
 }
 
